@@ -7,6 +7,7 @@ import (
 	"net"
 	"net/http"
 	"net/http/httputil"
+	"strings"
 	"time"
 
 	"go.uber.org/zap"
@@ -99,6 +100,11 @@ func (p *HTTPProxy) ServeHTTPWithUpstream(
 		r = r.WithContext(ctx)
 	}
 
+	// Headers listed in the 'Connection' header are hop-by-hop so are removed
+	// by the reverse proxy. Therefore don't allow Piko headers to be listed,
+	// otherwise they are dropped from the forwarded request.
+	removeConnectionOptions(r.Header, "x-piko-forward", "x-piko-endpoint")
+
 	r.Header.Set("x-piko-forward", "true")
 
 	r = r.WithContext(context.WithValue(r.Context(), endpointContextKey, endpointID))
@@ -129,6 +135,34 @@ func (p *HTTPProxy) errorHandler(w http.ResponseWriter, _ *http.Request, err err
 		return
 	}
 	_ = errorResponse(w, http.StatusBadGateway, "upstream unreachable")
+}
+
+// removeConnectionOptions removes the given header names from the options
+// listed in the 'Connection' header.
+func removeConnectionOptions(h http.Header, names ...string) {
+	var values []string
+	for _, value := range h.Values("Connection") {
+		var options []string
+		for _, option := range strings.Split(value, ",") {
+			remove := false
+			for _, name := range names {
+				if strings.EqualFold(strings.TrimSpace(option), name) {
+					remove = true
+				}
+			}
+			if !remove {
+				options = append(options, option)
+			}
+		}
+		if len(options) > 0 {
+			values = append(values, strings.Join(options, ","))
+		}
+	}
+	if len(values) > 0 {
+		h["Connection"] = values
+	} else {
+		h.Del("Connection")
+	}
 }
 
 type errorMessage struct {
